@@ -72,7 +72,8 @@ pub fn spans(body: &[u8]) -> Vec<Span> {
             _ => Kind::Tag,
         };
         raw_pending = false;
-        if tt == TokenType::StartTagToken {
+        // (the tokenizer also enters raw-text mode after `<script/>`: the self-closing form counts)
+        if tt == TokenType::StartTagToken || tt == TokenType::SelfClosingTagToken {
             if let Ok((Some(name), _)) = tok.tag_name() {
                 if RAW_TAGS.contains(&name.as_str()) {
                     raw_pending = true;
@@ -118,7 +119,7 @@ pub fn d7_zone(body: &[u8]) -> Vec<bool> {
             break;
         }
         pos += tok.raw().len();
-        if tt == TokenType::StartTagToken {
+        if tt == TokenType::StartTagToken || tt == TokenType::SelfClosingTagToken {
             if let Ok((Some(name), _)) = tok.tag_name() {
                 if RAW_TAGS.contains(&name.as_str()) && pos <= body.len() {
                     z[pos] = true;
